@@ -11,10 +11,12 @@ Proof.
   split.
   - destruct a, b; simpl; try discriminate; auto.
     + intros H. apply content_eqb_iff in H. congruence.
+    + intros H. apply andb_prop in H as [H1 H2]. apply Bool.eqb_prop in H1. apply content_eqb_iff in H2. congruence.
     + intros H. apply N.eqb_eq in H. congruence.
     + destruct f, f0; simpl; try discriminate; auto.
   - intros <-. destruct a; simpl; auto.
     + apply content_eqb_iff; auto.
+    + rewrite Bool.eqb_reflx. apply content_eqb_iff; auto.
     + apply N.eqb_refl.
     + destruct f; reflexivity.
 Qed.
